@@ -631,6 +631,54 @@ def do_replay(chk, path):
     return 1 if bad_all else 0
 
 
+def refcoll_race(chk):
+    """RpycRefColl on the real class: a sending thread's add() and a serving thread's decref() of the same key under every
+    schedule at source-line granularity (the table's lock replaced by a scheduler-aware one)"""
+    import random
+    from rpyc.lib.colls import RefCountingColl
+    res = tlc.require_ok(tlc.run_tlc("RpycRefColl", "MC_RpycRefColl.cfg", workers=1, coverage=True), "RpycRefColl")
+    if res.violation:
+        raise tlc.MachineryError("RpycRefColl violates " + res.violation)
+    chk.add_tlc(res, "RpycRefColl: add and decref as critical sections of one lock: a reference boxed while another is given back "
+                "leaves the object held")
+    res = tlc.run_tlc("RpycRefColl", "MC_RpycRefColl_lockfree.cfg", workers=1)
+    if res.violation != "StillHeld":
+        raise tlc.MachineryError("the lock-free variant of RpycRefColl is expected to violate StillHeld, TLC says %r" % res.violation)
+    n = 0
+    for seed in range(40 if not chk.thorough else 400):
+        s = sim.make_sched()
+        coll = RefCountingColl()
+        try:
+            object.__setattr__(coll, "_lock", sim.SimLock(s, "table"))
+        except Exception:
+            coll._lock = sim.SimLock(s, "table")
+        obj = ["x"]
+        key = ("k", 1, 2)
+        coll.add(key, obj)                 # one reference is out: stored count 0
+        lines = sim.LineYields(s, [RefCountingColl.add, RefCountingColl.decref])
+        lines.__enter__()
+        try:
+            ta = s.spawn("sender", lambda: coll.add(key, obj))
+            td = s.spawn("server", lambda: coll.decref(key, 1))
+            s.run(sim.RandomPolicy(random.Random(seed), stickiness=[0.0, 0.5, 0.8][seed % 3]), max_steps=5000)
+        finally:
+            lines.__exit__()
+        chk.evaluated()
+        n += 1
+        errs = [repr(t.exc) for t in (ta, td) if t.exc is not None]
+        present = key in coll._dict
+        count = coll._dict[key][1] if present else None
+        s.abort()
+        if errs or not present or count != 0:
+            chk.violation("refcoll:released-early", "C10 [owner's table used by a sending and a serving thread] one reference was out, "
+                          "one more was boxed while the first was given back: the table %s (errors: %s) - the object must still be "
+                          "held with stored count 0" % ("no longer holds the object" if not present else "stores count %r" % count, errs),
+                          {"mode": "refcoll", "seed": seed})
+            break
+        chk.validated()
+    chk.cov["refcoll_schedules"] = n
+
+
 def both_directions(chk):
     """the same object lent in both directions between two ends in one process, class queries in between (the history in which
     a release notice for a reference never handed out was found): every proxy must stay usable"""
@@ -731,6 +779,7 @@ def main():
     chans, summary, files = suite_traces.record(suite_traces.ALL_FILES)
     suite_traces.validate_refs(chk, PID, chans, "%d test files: %s" % (len(files), summary))
     both_directions(chk)
+    refcoll_race(chk)
     chk.assumptions += [
         "CPython reference counting runs proxy finalizers at the moment the last handle is dropped (automatic GC is off)",
         "frames are delivered whole and in order per direction; the harness chooses when each direction advances",
